@@ -173,6 +173,7 @@ class World:
         self._hash_k = 0
         self.gc_count = 0
         self.listeners = {}
+        self.deflists = {}      # option objects handed to composers (see oplang compose)
         self.clock = SimClock()
         self.restore_process_state()
         if self.fs is not None:
